@@ -29,7 +29,7 @@ def big_inputs(run_, queries, rng):
 def run(tier):
     return rel.run_tagged(
         "C07", tier, "GenAgg", {}, "agg",
-        dbs_fn=lambda tables, rng: rel.pick_dbs(tables, rng, 8 if tier == "quick" else 12),
+        dbs_fn=lambda tables, rng: rel.pick_dbs(tables, rng, 8 if tier == "quick" else 10),
         cfgs_fn=lambda rng: CFGS,
         extra_items=big_inputs,
         post=lambda rep, run_: scale.run(rep, tier, ["groupby", "distinct", "union", "countd"], "C07"),
